@@ -83,12 +83,12 @@ pub fn check() -> Check {
         batches,
         run,
         replay,
-        probes: &["failing_execution_replayed", "execution_with_4+_draws", "replay_from_file", "nondet_checker_runs", "deadlock_replayed", "sched_Random", "sched_Pct", "sched_Urw", "sched_Dfs", "sched_RoundRobin", "sched_Sim"],
+        probes: &["failing_execution_replayed", "execution_with_4+_draws", "replay_from_file", "replay_from_multiline_file", "nondet_checker_runs", "deadlock_replayed", "sched_Random", "sched_Pct", "sched_Urw", "sched_Dfs", "sched_RoundRobin", "sched_Sim"],
     }
 }
 
 fn batches(t: Tier) -> Vec<Batch> {
-    vec![Batch::new("replay", t.pick(6000, 150000), 200), Batch::new("failing", t.pick(3000, 60000), 200), Batch::new("async", t.pick(4000, 80000), 200)]
+    vec![Batch::new("replay", t.pick(6000, 150000), 200), Batch::new("failing", t.pick(3000, 60000), 200), Batch::new("async", t.pick(4000, 80000), 200), Batch::new("long", t.pick(600, 12000), 40)]
 }
 
 fn gen_case(batch: &str, rng: &mut Rng) -> Case {
@@ -97,6 +97,36 @@ fn gen_case(batch: &str, rng: &mut Rng) -> Case {
     if batch == "failing" {
         cfg.fail = true;
         cfg.join_prob = 4;
+    }
+    if batch == "long" {
+        // long executions: the printed schedule wraps over several lines
+        let mut cfg = GenCfg::none();
+        cfg.atomic = true;
+        cfg.yields = true;
+        cfg.mutex = rng.chance(1, 2);
+        cfg.rand = rng.chance(1, 2);
+        cfg.max_bodies = rng.range(3, 4);
+        cfg.max_ops = rng.range(10, 18);
+        cfg.join_prob = 7;
+        if rng.chance(1, 3) {
+            cfg.fail = true;
+        }
+        let mut prog = gen_program(rng, &cfg);
+        // pad with cheap visible operations until the execution is long enough for the printed
+        // schedule to wrap (76 hex columns ~ 100 steps)
+        let target = rng.range(130, 220);
+        while prog.op_count() < target {
+            let b = rng.below(prog.bodies.len());
+            let pos = rng.below(prog.bodies[b].len() + 1);
+            let op = match rng.below(4) {
+                0 => crate::prog::Op::Yield,
+                1 => crate::prog::Op::AAdd(0, 1),
+                2 => crate::prog::Op::ALoad(0),
+                _ => crate::prog::Op::Sleep,
+            };
+            prog.bodies[b].insert(pos, op);
+        }
+        return Case { prog, aprog: None, sched: gen_sched(rng) };
     }
     if batch == "async" {
         return Case { prog: Program::default(), aprog: Some(super::c17::gen_prog(rng)), sched: gen_sched(rng) };
@@ -203,7 +233,12 @@ fn check_case(case: &Case, out: &mut RunOut, rng_seed: u64) {
         // (2) replay through the printed string
         let sched = vec_to_schedule(recorded.0, &recorded.1);
         let text = serialize_schedule(&sched);
-        let layout = (rng_seed as usize + i) % 3;
+        let multiline = text.contains('\n');
+        // multi-line schedules always go through a file once (that is how FailurePersistence::File is replayed)
+        let layout = if multiline && (rng_seed as usize + i) % 2 == 0 { 2 } else { (rng_seed as usize + i) % 3 };
+        if multiline && layout == 2 {
+            out.count("replay_from_multiline_file", 1);
+        }
         let replay_sched = match layout {
             0 => ReplayScheduler::new_from_encoded(&text),
             1 => {
